@@ -179,7 +179,7 @@ def _test_feature_files():
         return []
 
 
-FIXED = ["order", "feature-order-vs-lookup-order", "two-lookups-one-glyph", "script-resets-lookupflag", "known:inline-lig-prefix", "known:ignore-multi-marked", "known:contourpoint-zero", "pair-subtables", "marks", "chain-positions",
+FIXED = ["order", "feature-order-vs-lookup-order", "two-lookups-one-glyph", "script-resets-lookupflag", "vertical-values", "known:inline-lig-prefix", "known:ignore-multi-marked", "known:contourpoint-zero", "pair-subtables", "marks", "chain-positions",
          "ligature-longest", "flags"]
 
 
